@@ -2,6 +2,7 @@ import Driver.Common
 import O4.Model.Crypto.Sha256
 import O4.Model.Crypto.Sha512
 import O4.Model.Crypto.Hmac
+import O4.Model.Crypto.Secretbox
 /-!
 driver module `prim`: the executable symmetric primitives, one call per line (hex arguments,
 `-` = empty). Replies are hex, `none` (secretbox open failure), `err` (what the Go library rejects:
@@ -9,6 +10,8 @@ bad key/nonce/iv sizes, HKDF past its limit) or `bad-op`.
 
   sha256 <m> | sha512 <m> | hmac <key> <m> | hkdfx <salt> <ikm> | hkdfe <prk> <info> <n>
   hkdf <secret> <salt> <info> <n> | hkdfr <prk> <info> <n1> <n2> … (successive reads of one reader)
+  salsablk <key32> <in16> (core on Sigma,key,in) | salsactr <key32> <nonce8> <block ctr> <len> | hsalsa <key32> <in16> | salsa <key32> <nonce 8|24> <off> <len> | xsalsa <key32> <nonce24> <len>
+  poly <key32> <m> | sbseal <key32> <nonce24> <m> | sbopen <key32> <nonce24> <box>  (→ hex | none)
   bench <prim> <size> <iters>   -- runs the primitive `iters` times on `size`-byte inputs, replies a checksum
 -/
 namespace Driver.Prim
@@ -38,6 +41,16 @@ def bench (prim : String) (size iters : Nat) : String :=
   | "sha512" => benchLoop iters (fun i => sha512 (benchMsg size i))
   | "hmac" => benchLoop iters (fun i => hmacSha256 key (benchMsg size i))
   | "hkdfe" => benchLoop iters (fun i => hkdfExpand (benchMsg 32 i) [] size)
+  | "xsalsa" => benchLoop iters (fun i => xsalsa20Stream key (benchMsg 24 i) 0 size)
+  | "poly" => benchLoop iters (fun i => poly1305 key (benchMsg size i))
+  | "sbseal" => benchLoop iters (fun i => secretboxSeal key (benchMsg 24 i) (benchMsg size i))
+  | "sbopen" =>
+    let nonce := List.replicate 24 (9 : UInt8)
+    let box := secretboxSeal key nonce (benchMsg size 1)
+    -- every second box is tampered in its last byte
+    benchLoop iters (fun i =>
+      let b := if i % 2 == 0 then box else box.dropLast ++ [UInt8.ofNat i]
+      match secretboxOpen key nonce b with | some m => m | none => [UInt8.ofNat i])
   | _ => "bad-op"
 
 def pieces (o : Bytes) : List Nat → List String
@@ -64,6 +77,36 @@ def step (_ : Unit) : List String → Unit × String
           | some o => ",".intercalate (pieces o ns)
           | none => "err"
       | none => "bad-op")
+  | ["salsablk", k, n] => ((), hex2 k n fun k n =>
+      if k.length == 32 && n.length == 16 then
+        let sg := Bytes.ofString "expand 32-byte k"
+        hex (salsa20Core ((sg.take 4) ++ k.take 16 ++ (sg.drop 4).take 4 ++ n ++ (sg.drop 8).take 4
+                          ++ k.drop 16 ++ sg.drop 12))
+      else "err")
+  | ["salsactr", k, n, ctr, len] => ((), match ctr.toNat?, len.toNat? with
+      | some ctr, some len => hex2 k n fun k n =>
+          if k.length == 32 && n.length == 8 then hex (salsa20Stream k n (64 * ctr) len) else "err"
+      | _, _ => "bad-op")
+  | ["hsalsa", k, n] => ((), hex2 k n fun k n =>
+      if k.length == 32 && n.length == 16 then hex (hsalsa20 k n) else "err")
+  | ["salsa", k, n, off, len] => ((), match off.toNat?, len.toNat? with
+      | some off, some len => hex2 k n fun k n =>
+          if k.length != 32 then "err"
+          else if n.length == 8 then hex (salsa20Stream k n off len)
+          else if n.length == 24 then hex (xsalsa20Stream k n off len)
+          else "err"
+      | _, _ => "bad-op")
+  | ["xsalsa", k, n, len] => ((), match len.toNat? with
+      | some len => hex2 k n fun k n =>
+          if k.length == 32 && n.length == 24 then hex (xsalsa20Stream k n 0 len) else "err"
+      | none => "bad-op")
+  | ["poly", k, m] => ((), hex2 k m fun k m => if k.length == 32 then hex (poly1305 k m) else "err")
+  | ["sbseal", k, n, m] => ((), hex3 k n m fun k n m =>
+      if k.length == 32 && n.length == 24 then hex (secretboxSeal k n m) else "err")
+  | ["sbopen", k, n, b] => ((), hex3 k n b fun k n b =>
+      if k.length == 32 && n.length == 24 then
+        match secretboxOpen k n b with | some m => hex m | none => "none"
+      else "err")
   | ["bench", p, size, iters] => ((), match size.toNat?, iters.toNat? with
       | some s, some i => bench p s i
       | _, _ => "bad-op")
